@@ -179,6 +179,34 @@ Theorem C07_history_ids : forall (H : bytes -> bytes) (ops : list op) (ob : txob
 Proof. exact history_ids. Qed.
 Print Assumptions C07_history_ids.
 
+(* ---- several live objects (Model/TxObject.v, World): no operation on one object is visible on another -------------
+   wrun runs operations addressed to the objects of a list of transactions in any interleaving.  What object k shows is
+   exactly what k's own operations produce on k alone (C07_world_projection); operations on other objects change nothing
+   (C07_world_noninterference).  The harness runs such interleavings on live pycoin objects built by the parser and by
+   default constructors and compares object k's trace with the single-object model: shared mutable state between objects
+   (seed C07-e1: one witness list shared by every default-constructed TxIn) breaks that correspondence. *)
+Theorem C07_world_projection : forall (H : bytes -> bytes) (ops : list (nat * op)) (w : list txobj) (k : nat) (ob : txobj),
+  nth_error w k = Some ob ->
+  map snd (filter (on_obj k) (wrun H ops w)) = run H (map snd (filter (on_obj k) ops)) ob.
+Proof. exact world_projection. Qed.
+Print Assumptions C07_world_projection.
+
+Theorem C07_world_noninterference : forall (H : bytes -> bytes) (ops : list (nat * op)) (w : list txobj) (k : nat) (ob : txobj) (o : obs),
+  nth_error w k = Some ob -> (forall x, In x ops -> fst x <> k) ->
+  map snd (filter (on_obj k) (wrun H (ops ++ [(k, Obs o)]) w)) = [observe H o ob].
+Proof. exact world_noninterference. Qed.
+Print Assumptions C07_world_noninterference.
+
+(* in-place extension of a witness list = assignment of the extended list *)
+Theorem C07_extend_witness_is_assignment : forall (i : nat) (w : list bytes) (ob : txobj),
+  apply_mut (MExtendWitness i w) ob =
+  match nth_error (tx_ins (ob_tx ob)) i with
+  | Some x => apply_mut (MAssignWitness i (ti_witness x ++ w)) ob
+  | None => Raise E_INDEX
+  end.
+Proof. exact extend_witness_spec. Qed.
+Print Assumptions C07_extend_witness_is_assignment.
+
 (* set_witness and the plain assignment tx.txs_in[i].witness = w (what Tx.parse does) are the same mutation *)
 Theorem C07_set_witness_is_assignment : forall (i : nat) (w : list bytes) (ob : txobj),
   apply_mut (MSetWitness i w) ob = apply_mut (MAssignWitness i w) ob.
